@@ -22,6 +22,7 @@ EXPLANATION = (
     "by `ranking and weight > 0`. Does NOT decide the numeric conservation law over whole counts or "
     "uniformity of random.sample."
 )
+EXPLANATION += ' Also decided (prerequisites and later clauses): ballots_by_first_cand files every ballot once, under the member of its first position.'
 ASSUMPTIONS = ["random.sample is a uniform sample without replacement (trusted primitive)",
                "Ballot.weight / scores values are Fractions (C11.R2)"]
 TRUSTED = ["random.sample", "fractions.Fraction"]
